@@ -81,6 +81,24 @@ func (r *PlainRanger) Range() (reflect.Value, reflect.Value, bool) {
 func (r *PlainRanger) ProvidesIndex() bool { return false }
 
 // Emb has a field promoted through an embedded pointer, which may be nil.
+// interface-typed fields reached through an embedded pointer / an embedded struct of an unexported type
+type PEmbI struct {
+	Flag, Count, Name, On interface{}
+	List                  interface{}
+}
+type EmbI struct {
+	*PEmbI
+	Own string
+}
+type embU struct {
+	Flag, Count, Name, On interface{}
+	List                  interface{}
+}
+type EmbU struct {
+	embU
+	Own string
+}
+
 type PEmb struct{ PName string }
 type Emb struct {
 	*PEmb
@@ -268,6 +286,10 @@ func Build(r Recipe) interface{} {
 		return &Strg{S: r.S}
 	case "error":
 		return errors.New(r.S)
+	case "embiface": // falsy values in interface fields behind an embedded pointer
+		return &EmbI{PEmbI: &PEmbI{Flag: false, Count: 0, Name: "", On: true, List: []string{"l1", "l2"}}, Own: "own"}
+	case "embuiface": // ... behind an embedded struct of an unexported type
+		return EmbU{embU: embU{Flag: false, Count: 0.0, Name: "", On: "yes", List: []string{"u1"}}, Own: "own"}
 	case "emb": // S == "" : the embedded pointer is nil
 		if r.S == "" {
 			return &Emb{Name: "emb-nil"}
